@@ -277,6 +277,29 @@ func TestC17(t *testing.T) {
 	}
 	rapid.Check(t, func(rt *rapid.T) {
 		p := proggen.Gen(rt, proggen.GenOpts{Focus: "all", MinPkgs: 1, MaxPkgs: 3, TestFiles: true, XTest: true, Aliases: true, Rich: true})
+		// a file whose NAME (not its directory) matches the default exclude-paths entry,
+		// next to ordinary files of the same package: nothing may be positioned in it
+		if rapid.IntRange(0, 9).Draw(rt, "excludedByName") < 3 {
+			var cands []*proggen.File
+			for _, pk := range p.Pkgs {
+				n := 0
+				for _, f := range pk.Files {
+					if f.Kind == proggen.FileRegular {
+						n++
+					}
+				}
+				for _, f := range pk.Files {
+					if f.Kind == proggen.FileRegular && n >= 2 {
+						cands = append(cands, f)
+					}
+				}
+			}
+			if len(cands) > 0 {
+				f := cands[rapid.IntRange(0, len(cands)-1).Draw(rt, "excludedFile")]
+				f.Name = rapid.SampledFrom([]string{"zz_testdata_fixtures.go", "a_testdata.go", "testdata.go"}).Draw(rt, "excludedName")
+				ev.Class(id, "program with a file excluded by its name among ordinary files")
+			}
+		}
 		src := stripTags(p.Sources())
 		c := c17Case{Pkgs: pkgDirs(p), Sources: src}
 		cfg := engine.DefaultConfig()
